@@ -113,7 +113,7 @@ def task_loop(task, rec, out):
         if not r.get("ok"):
             continue
         sess = engine.Session(stmts, r["json"])
-        fs = engine.check_loop(sess, rec, f"{task['key']}/{tag}", readers=task.get("readers", ()), rounds=task.get("rounds", 3))
+        fs = engine.check_loop(sess, rec, f"{task['key']}/{tag}", readers=task.get("readers", ()), rounds=task.get("rounds", 3), warmup=task.get("warmup", 0))
         for f in fs:
             f["src"] = r["src"]
             f["build"] = build
